@@ -168,7 +168,45 @@ def run_session_msg_vector(i, v):
     return line
 
 
+def run_addpath_vector(i, v):
+    """UPDATE constructed / decoded with add-path identifiers"""
+    ref = bytes(v['b'])
+    u = v['u']
+    line = {'id': i, 'kind': 'updap', 'cls': 'wd%d-nl%d-ids%s' % (len(u['wd']), len(u['nlri']), '.'.join(str(x[3]) + ('hi' if x[0] else '') for x in v['wids'] + v['nids'])),
+            'asn4': True, 'ref': list(ref), 'impl': [], 'raised': False, 'none': False, 'rt_ok': False, 'dec_ok': False, 'dec_err': False, 'diff': '', 'ddiff': ''}
+    inp, exp = M.update_in_out(u, True, NAMES)
+
+    def pid(x):
+        return (x[0] << 24) + (x[1] << 16) + (x[2] << 8) + x[3]
+    exp['nlri'] = [{'prefix': p, 'path_id': pid(a)} for p, a in zip(exp['nlri'], v['nids'])]
+    exp['withdraw'] = [{'prefix': p, 'path_id': pid(a)} for p, a in zip(exp['withdraw'], v['wids'])]
+    try:
+        d = Update.parse(0, ref[19:], True, afi_add_path={'ipv4': True})
+        dd = diff(exp, d)
+        if d.get('sub_error'):
+            dd = dd or 'sub_error=%r' % (d['sub_error'],)
+        line['dec_ok'] = dd == ''
+        line['ddiff'] = dd[:300]
+    except Exception as e:
+        line['ddiff'] = 'raised %r' % (e,)
+    inp['nlri'] = list(exp['nlri'])
+    inp['withdraw'] = list(exp['withdraw'])
+    try:
+        impl = Update.construct(inp, True, True)
+    except Exception as e:
+        line['raised'] = True
+        line['diff'] = 'construct raised %r' % (e,)
+        return line
+    if impl is None:
+        line['none'] = True
+        return line
+    line['impl'] = list(impl)
+    return line
+
+
 def run_vector(i, v):
+    if v['kind'] == 'updap':
+        return run_addpath_vector(i, v)
     if v['kind'] in ('upd', 'updvar', 'cor'):
         return run_update_vector(i, v)
     return run_session_msg_vector(i, v)
